@@ -48,13 +48,21 @@ def landscaper_history(draw, max_ops=8):
             "stop": draw(st.sampled_from([20.0, 9.0, 50.0, 120.0])), "ops": []}
     n = draw(st.integers(1, max_ops))
     for i in range(n):
-        op = "fit" if i == 0 else draw(st.sampled_from(["fit", "fit", "transform", "transform", "fit_transform"]))
+        op = "fit" if i == 0 else draw(st.sampled_from(["fit", "fit", "transform", "transform", "fit_transform", "set"]))
         if i == 0 and draw(st.booleans()):
             op = "fit_transform"
+        if op == "set":
+            # the user fixes a parameter AFTER construction (attribute assignment or scikit-learn's set_params), possibly between a fit
+            # and a transform; values are chosen off the data lattice so that they cannot coincide with a learned bound
+            what = draw(st.sampled_from(["start", "stop", "both", "num_steps", "flatten"]))
+            case["ops"].append({"op": "set", "what": what, "via": draw(st.sampled_from(["attr", "set_params"])),
+                                "start": draw(st.sampled_from([-1.25, -7.75, 0.625])), "stop": draw(st.sampled_from([33.5, 140.25, 61.125])),
+                                "num_steps": draw(st.sampled_from([6, 13, 40])), "flatten": draw(st.booleans())})
+            continue
         case["ops"].append({"op": op, "X": draw(dgm_list())})
-    if fixed != "none" and draw(st.integers(0, 2)) == 0:
+    if fixed != "none" and draw(st.integers(0, 2)) == 0 and any("X" in o for o in case["ops"]):
         # relation between parameters and data: the user-fixed bound coincides exactly with the extreme of one fit's data
-        k = draw(st.integers(0, len(case["ops"]) - 1))
+        k = draw(st.sampled_from([i for i, o in enumerate(case["ops"]) if "X" in o]))
         X = case["ops"][k]["X"][case["hom_deg"]]
         case["start"] = min(b for b, _ in X)
         case["stop"] = max(d for _, d in X)
@@ -99,11 +107,37 @@ def run_landscaper(case, ctx):
     n_fits = 0
     extents = set()
     saw_transform_between = False
+    n_set = 0
     for k, op in enumerate(case["ops"]):
+        step = "op %d (%s)" % (k, op["op"])
+        if op["op"] == "set":
+            new = {}
+            if op["what"] in ("start", "both"):
+                new["start"] = op["start"]
+            if op["what"] in ("stop", "both"):
+                new["stop"] = op["stop"]
+            if op["what"] == "num_steps":
+                new["num_steps"] = op["num_steps"]
+            if op["what"] == "flatten":
+                new["flatten"] = op["flatten"]
+            if op["via"] == "set_params":
+                ctx.call(est.set_params, **new)
+            else:
+                for kk, vv in new.items():
+                    ctx.call(setattr, est, kk, vv)
+            for kk, vv in new.items():
+                if kk in ("start", "stop"):
+                    user[kk] = vv
+            n = new.get("num_steps", n)
+            flat = new.get("flatten", flat)
+            n_set += 1
+            got = ctx.call(est.get_params)
+            ctx.require(all(got.get(kk) == vv for kk, vv in new.items()), "set_parameter_not_reported",
+                        lambda: "%s via %s: get_params() = %r after setting %r" % (step, op["via"], got, new))
+            continue
         X = op["X"]
         if len(X) <= h or not X[h]:
             ctx.skip("no diagram in the requested degree (shrinker)")
-        step = "op %d (%s)" % (k, op["op"])
         if op["op"] in ("fit", "fit_transform"):
             if op["op"] == "fit":
                 ret = ctx.call(est.fit, arrs(X))
@@ -148,7 +182,7 @@ def run_landscaper(case, ctx):
                             % (step, ws, wt, n, est.start, est.stop))
         else:
             ctx.skip("unknown op (shrinker)")
-    ctx.label("fixed:" + case["fixed"], "fits=%d" % min(n_fits, 4), "refit_different_extent" if len(extents) >= 2 else None,
+    ctx.label("fixed:" + case["fixed"], "fits=%d" % min(n_fits, 4), "parameter_set_after_construction" if n_set else None, "refit_different_extent" if len(extents) >= 2 else None,
               "fixed_bound_equals_a_data_extreme" if "coincides_with_op" in case else None)
     ctx.nontrivial(len(extents) >= 2 and saw_transform_between and case["ops"][-1]["op"] != "fit")
 
@@ -323,6 +357,11 @@ def VALID_DEFAULT(case):
                     return False
         else:
             for op in case["ops"]:
+                if op["op"] == "set":
+                    if op["what"] not in ("start", "stop", "both", "num_steps", "flatten") or op["via"] not in ("attr", "set_params") or not op["num_steps"] >= 2 \
+                            or op["start"] not in (-1.25, -7.75, 0.625) or op["stop"] not in (33.5, 140.25, 61.125):
+                        return False
+                    continue
                 if len(op["X"]) < 2 or any(len(d) < 1 or any(len(q) != 2 or not q[1] > q[0] for q in d) for d in op["X"]):
                     return False
     except Exception:
@@ -332,7 +371,7 @@ def VALID_DEFAULT(case):
 
 CLAUSES = [
     Clause("landscaper_history", landscaper_history(8), run_landscaper, quick=6000, thorough=60000, floors={"refit_different_extent": 0.2},
-           rule="PersistenceLandscaper with a generated subset of {start, stop} fixed + 1..8 fit / transform / fit_transform calls; after each fit "
+           rule="PersistenceLandscaper with a generated subset of {start, stop} fixed + 1..8 fit / transform / fit_transform calls and parameter assignments after construction (attribute or set_params: start, stop, num_steps, flatten); after each fit "
                 "start/stop equal the user value or the extent of THAT fit's data; every transform equals the landscape on the grid of the most recent "
                 "fit, is repeatable and leaves get_params() unchanged; fit_transform == fit;transform on a fresh estimator; non-trivial = >= 2 fits "
                 "on data of different extent with a transform in between and after"),
